@@ -194,6 +194,7 @@ M("C08", "c08_block_work_gate", [BVX, "BurnFee::return_routing_work_needed_to_pr
 M("C08", "c08_block_gt_gate", [BVX, "GoldenTicket::validate (uninterpreted)"], "every path returning true on which a golden ticket is examined")
 M("C08", "c08_winning_router_eligible", ["Transaction::get_winning_routing_node"], "0..=3 hops (thorough 5), 0..=2 inputs, fee within the token supply, lottery remainder a symbolic input below the aggregate work", covers=1)
 M("C08", "c08_requirement_zero_after_two_heartbeats", ["BurnFee::return_routing_work_needed_to_produce_block_in_nolan"], "every parent burn fee, timestamps and heartbeat (u64); the integer gates (misordered timestamps, elapsed >= 2 x heartbeat => 0); the float curve below two heartbeats is an arbitrary value; native replay", covers=1)
+M("C08", "c08_routing_path_valid", ["Transaction::validate_routing_path"], "paths of 1..=2 hops (thorough 3), keys / signatures symbolic, one free verify verdict per question; message = tx signature || hop.to checked bytewise", covers=1)
 PROPERTY_ASSUMPTIONS["C13"] = [
     "engine M gates only: the validator requires the block's rebroadcast commitment to equal the recomputed one, and the in-block double-spend scan treats ATR transactions like any other spender. Which outputs are selected for rebroadcast, their amounts, 'exactly once' and expiry over histories are outside the claim",
 ]
@@ -219,6 +220,7 @@ PROPERTY_ASSUMPTIONS["C04"] = [
     "wallet slips, stored blocks and the full observable snapshot after a real failed reorganisation are outside the claim",
 ]
 M("C04", "c04_index_cleanup", ["BlockRing::delete_block", "RingItem::delete_block"], "same as c03_m_blockring_delete: rejecting a block removes exactly its (id, hash) from the chain index, for any id", covers=2)
+M("C04", "c04_ringitem_delete", ["RingItem::delete_block"], "same as c03_m_ringitem_delete: slots of 1..=3 (4) pairwise different blocks (same id with another hash included)", covers=1)
 M("C04", "c04_rejected_block_writes_nothing", ["Blockchain::add_block (async body, up to the fork-choice comparison)"], "every path that returns before the fork-choice step (about 10 of 400); block id/hash/parent, tip, genesis period, stored/loading flags symbolic; writes = BlockRing::add_block/on_chain_reorganization/delete_block, blocks.insert/remove", covers=1)
 M("C04", "c04_wind_failure_request", ["Blockchain::wind_chain (async body, one step)"], "candidate chains of 2..=3 blocks (thorough 4), failing block at every index that is not the first one wound; the unwind request must list exactly the blocks already wound", covers=1)
 M("C04", "c04_machine", ["Blockchain::validate", "Blockchain::wind_chain", "Blockchain::unwind_chain"], "see assumptions; one class per (|new|, |old|, validity pattern forced by the path)", covers=4)
@@ -230,6 +232,7 @@ PROPERTY_ASSUMPTIONS["C16"] = [
 ]
 M("C16", "c16_mark_as_failed_step", ["BlockchainSyncState::mark_as_failed"], "queues of 1..=3 entries, ids (equal ids allowed) and 32-byte hashes symbolic, every status pattern", covers=3)
 M("C16", "c16_picture_no_duplicates", ["BlockchainSyncState::build_peer_block_picture"], "one peer, fetch queue of 2..=3 entries (thorough 4) in any order without duplicates, one announced (id, hash) possibly equal to any queued entry; the final map clean-ups are cut", covers=1)
+M("C16", "c16_mark_as_fetched_step", ["BlockchainSyncState::mark_as_fetched"], "two peers, each queue holding the fetched hash (any status, either position) and one other entry; the clean-up call is cut", covers=1)
 M("C16", "c16_select_step", ["saito_core::core::consensus::blockchain_sync_state::BlockchainSyncState::get_blocks_to_fetch_per_peer"],
   "queues of 1..=3 entries (thorough 4): every status pattern (4^n), ids, retry counters (full u32) and batch size symbolic; ~14 clauses per path", covers=3)
 
@@ -279,6 +282,7 @@ M("C18", "c18_lite_tx_projection", ["saito_core::core::consensus::block::Block::
   "transactions with 0..=2 inputs x 0..=2 outputs (thorough 0..=3), every type, owners symbolic 33-byte keys; key lists of 0..=2 (3) symbolic keys in any order", covers=20)
 
 M("C18", "c18_lite_block_keeps_listed", ["Block::generate_lite_block (whole function: projection closure, placeholder merging loop, header copy)"], "blocks of 2..=3 transactions (thorough 4), one input and one output each, owner keys / types / signatures symbolic, one listed key", covers=2)
+M("C18", "c18_placeholder_wire_roundtrip", ["Transaction::serialize_for_net_with_hop", "Transaction::deserialize_from_net"], "same as c09_m_tx_roundtrip (txs_replacements among the compared fields)", covers=4)
 # ============================================================================== C14
 PROPERTY_ASSUMPTIONS["C14"] = [
     "inductive steps from a pool satisfying Inv (utxo_map holds exactly the inputs of the pooled transactions; pooled transaction = 1 with 1..=2 inputs), routing work and fees within the token supply; async bodies with every poll Ready",
